@@ -105,56 +105,62 @@ def tail_after(full, prefix):
     return full[len(prefix) + 1:]
 
 
-@harness('E4', targets=['kopf._cogs.configs.conventions.StorageKeyFormingConvention.make_v2_key',
-                        'kopf._cogs.configs.conventions.StorageKeyFormingConvention.make_v1_key',
-                        'kopf._cogs.configs.conventions.StorageKeyFormingConvention.make_safe_key'],
-         props=['C16'],
-         clauses=['prefixed', 'name_length', 'name_charset', 'name_valid', 'short_verbatim', 'long_hashed', 'safe_key'],
-         canaries=['canary.never_hashed', 'canary.always_verbatim'],
-         trusted=['make_suffix: "-" + 5 chars of [A-Za-z0-9.-] + 1 alphanumeric (7 chars), a function of its argument only: '
-                  'shape and determinism checked on the real blake2b/base64 in E4b'],
-         timeout_ms=20000)
-def E4(vc):
-    """
-    For EVERY handler id over [A-Za-z0-9_./<>-] (length >= 1) and every non-empty prefix:
-      prefixed        the key is `<prefix>/<name>`
-      name_length     v2: len(name) <= 63.  v1 (documented: the 63 limit covers the whole key): len(key) <= 63
-                      [known finding F-C16-3: v1 with a prefix of 55+ chars -- accepted without a warning up to 189]
-      name_charset    the name consists of [A-Za-z0-9_.-] only
-      name_valid      the name starts and ends with an alphanumeric (Kubernetes qualified name)
-                      [known finding F-C16-1: ids that start with a non-alphanumeric, or short ids that end with one]
-      short_verbatim  an id that fits is kept verbatim up to the documented replacements (/ -> . ; < > -> _), no hash
-      long_hashed     an id that does not fit is cut and ends with make_suffix(...) of the id (v2) / of the safe id (v1)
-      safe_key        make_safe_key(id) == id with '/'->'.', '<','>'->'_' (same length)
-    make_suffix is used by contract (shape in `trusted`); make_safe_key runs inlined.
-    """
-    import z3
+def _e4(vc, branches):
     key = vc.str('id')
-    prefix = vc.str('prefix')
-    vc.assume(chars_in(key, ID_CHARS), 'handler ids are over [A-Za-z0-9_./<>-]')
     vc.assume(slen(key) >= 1, 'handler ids are not empty (registries.generate_id)')
+
+    def suffix_contract(s):
+        return And(slen(s) == SUFFIX_LEN, first_in(s, '-'), last_in(s, ALNUM), chars_in(s, ALNUM + '.-'))
+
+    def safe_contract(r, arg):
+        return And(Eq(slen(r), slen(arg)), chars_in(r, NAME_CHARS),
+                   Iff(first_in(r, ALNUM), first_in(arg, ALNUM)), Iff(last_in(r, ALNUM), last_in(arg, ALNUM)))
+    which = branches[vc.nondet(len(branches), 'function')]
+    if which == 2:
+        # ---- lemma: both documented shapes of a name are valid Kubernetes names (no real code on this branch)
+        vc.assume(chars_in(key, ID_CHARS), 'handler ids are over [A-Za-z0-9_./<>-]')
+        safe, sfx, keep = vc.str('safe_key'), vc.str('suffix'), vc.int('keep')
+        vc.assume(safe_contract(safe, key), 'make_safe_key contract (E4b.safe_key)')
+        vc.assume(suffix_contract(sfx), 'make_suffix contract (E4b.suffix_shape)')
+        vc.assume(And(keep >= 1, keep <= 63 - SUFFIX_LEN), 'long_hashed: 1 <= keep <= 56')
+        shape = vc.nondet(2, 'verbatim | hashed')
+        bad_first, bad_last = Not(first_in(key, ALNUM)), Not(last_in(key, ALNUM))
+        if shape == 0:
+            vc.assume(slen(key) <= 63, 'short_verbatim applies')
+            name = safe
+        else:
+            vc.assume(slen(key) > keep, 'long_hashed applies')
+            name = safe[:keep] + sfx
+        vc.ensure('name_charset', chars_in(name, NAME_CHARS))
+        vc.ensure('name_valid', first_in(name, ALNUM), excuse={'F-C16-1': bad_first})
+        vc.ensure('name_valid', last_in(name, ALNUM), excuse={'F-C16-1': bad_last} if shape == 0 else None)
+        vc.canary('canary.lemma_keeps_all', Eq(slen(name), slen(key)))
+        return ('lemma', shape, name)
+    # ---- the real functions against the two shapes
+    prefix = vc.str('prefix')
     vc.assume(slen(prefix) >= 1, 'the constructor rejects an empty prefix')
     vc.assume(slen(prefix) <= 253 - 63 - 1, 'the prefix is short enough not to trigger the constructor warning')
-    suffix_calls = []
+    if which == 1:
+        # case split only (both halves are explored): it keeps the string-length reasoning of z3 tractable
+        if vc.nondet(2, 'prefix <= 54 | prefix >= 55') == 0:
+            vc.assume(slen(prefix) <= 54, 'case: room for the hash and at least one character of the id')
+        else:
+            vc.assume(slen(prefix) >= 55, 'case: no room (class of F-C16-3)')
+    suffix_calls, safe_calls = [], []
 
     def make_suffix(arg):
         s = vc.str('suffix')
-        vc.assume(And(slen(s) == SUFFIX_LEN, first_in(s, '-'), last_in(s, ALNUM), chars_in(s, ALNUM + '.-')),
-                  'make_suffix shape (E4b.suffix_shape)')
+        vc.assume(slen(s) == SUFFIX_LEN, 'make_suffix contract: 7 characters (E4b.suffix_shape)')
         suffix_calls.append((arg, s))
         return s
-    vc.used('self.make_suffix', 'E4b')
-    safe_calls = []
 
     def make_safe_key(arg):
         r = vc.str('safe_key')
-        vc.assume(And(Eq(slen(r), slen(arg)), chars_in(r, NAME_CHARS),
-                      Iff(first_in(r, ALNUM), first_in(arg, ALNUM)), Iff(last_in(r, ALNUM), last_in(arg, ALNUM))),
-                  'make_safe_key contract (E4b.safe_key): same length, [A-Za-z0-9_.-] only, alphanumerics stay, others stay non-alphanumeric')
+        vc.assume(Eq(slen(r), slen(arg)), 'make_safe_key contract: same length (E4b.safe_key)')
         safe_calls.append((arg, r))
         return r
+    vc.used('self.make_suffix', 'E4b')
     vc.used('self.make_safe_key', 'E4b')
-    which = vc.nondet(2, 'function')
     me = Opaque('storage', prefix=prefix)
     me.make_suffix = make_suffix
     me.make_safe_key = make_safe_key
@@ -162,32 +168,254 @@ def E4(vc):
     ld = vc.load('kopf._cogs.configs.conventions', f'StorageKeyFormingConvention.make_{version}_key')
     full = ld.fn(me, key)
     lp = slen(prefix)
-    vc.ensure('prefixed', full.startswith(prefix + '/') if isinstance(full, SStr) else full.startswith(prefix + '/'))
+    vc.ensure('prefixed', full.startswith(prefix + '/'))
     name = tail_after(full, prefix)
-    vc.ensure('safe_key', len(safe_calls) == 1 and safe_calls[0][0] is key)
+    name_len = slen(full) - (lp + 1)          # == len(name) once `prefixed` holds; plain arithmetic for the solver
+    vc.ensure('callees', len(safe_calls) == 1 and safe_calls[0][0] is key)
     safe = safe_calls[0][1]
     if version == 'v2':
         fits = slen(key) <= 63
-        vc.ensure('name_length', And(slen(name) <= 63, slen(name) >= 1))
+        keep = 63 - SUFFIX_LEN
+        long_prefix = False
+        vc.ensure('name_length', And(name_len <= 63, name_len >= 1))
     else:
         fits = slen(key) <= 63 - (lp + 1)
+        keep = 63 - SUFFIX_LEN - (lp + 1)
         long_prefix = lp >= 63 - 1 - SUFFIX_LEN        # no room for even one character of the id next to the hash
-        vc.ensure('name_length', And(slen(full) <= 63, slen(name) >= 1), excuse={'F-C16-3': long_prefix})
-    vc.ensure('name_charset', chars_in(name, NAME_CHARS))
-    bad_ends = Or(Not(first_in(key, ALNUM)), And(fits, Not(last_in(key, ALNUM))))
-    exc = {'F-C16-1': bad_ends}
-    if version == 'v1':
-        exc['F-C16-3'] = long_prefix
-    vc.ensure('name_valid', And(first_in(name, ALNUM), last_in(name, ALNUM)), excuse=exc)
+        vc.ensure('name_length', And(slen(full) <= 63, name_len >= 1), excuse={'F-C16-3': long_prefix})
     vc.ensure('short_verbatim', Implies(fits, And(Eq(name, safe), len(suffix_calls) == 0)))
     if suffix_calls:
         arg, sfx = suffix_calls[0]
-        vc.ensure('long_hashed', And(Not(fits), len(suffix_calls) == 1, Eq(arg, key if version == 'v2' else safe)))
-        vc.ensure('long_hashed', name.endswith(sfx) if isinstance(name, SStr) else name.endswith(sfx))
-        keep = 63 - SUFFIX_LEN - (0 if version == 'v2' else lp + 1)
-        vc.ensure('long_hashed', Eq(name, safe[:keep] + sfx), excuse={'F-C16-3': long_prefix} if version == 'v1' else None)
+        vc.ensure('callees', len(suffix_calls) == 1 and (arg is key or arg is safe))
+        vc.ensure('long_hashed', Not(fits))
+        vc.ensure('long_hashed', And(keep >= 1, Eq(name, safe[:keep] + sfx)), excuse={'F-C16-3': long_prefix})
     else:
         vc.ensure('long_hashed', fits)
     vc.canary('canary.never_hashed', len(suffix_calls) == 0)
-    vc.canary('canary.always_verbatim', Eq(name, safe))
+    vc.canary('canary.always_hashed', len(suffix_calls) == 1)
     return (version, full)
+
+
+@harness('E4', targets=['kopf._cogs.configs.conventions.StorageKeyFormingConvention.make_v2_key'],
+         props=['C16'],
+         clauses=['prefixed', 'name_length', 'short_verbatim', 'long_hashed', 'callees', 'name_charset', 'name_valid'],
+         canaries=['canary.never_hashed', 'canary.always_hashed', 'canary.lemma_keeps_all'],
+         trusted=['make_suffix: "-" + 5 chars of [A-Za-z0-9.-] + 1 alphanumeric (7 chars), a function of its argument only: '
+                  'shape and determinism checked on the real blake2b/base64 in E4b.suffix_shape',
+                  'make_safe_key: same length, result over [A-Za-z0-9_.-], alphanumerics unchanged, non-alphanumerics stay '
+                  'non-alphanumeric: checked exhaustively/randomly in E4b.safe_key (z3 returns unknown on str.replace_all)'],
+         timeout_ms=20000)
+def E4(vc):
+    """
+    For EVERY handler id (length >= 1) and every non-empty prefix of <= 189 chars (longer ones warn at construction):
+     on the real make_v2_key / make_v1_key (branches 0/1; make_suffix and make_safe_key by contract):
+      prefixed        the key is `<prefix>/<name>`
+      name_length     v2: 1 <= len(name) <= 63.  v1 (documented: the 63 limit covers the whole key): len(key) <= 63
+                      [known finding F-C16-3: v1 with a prefix of 55+ chars -- accepted without a warning up to 189]
+      short_verbatim  an id that fits is kept verbatim up to the documented replacements: name == make_safe_key(id), no hash
+      long_hashed     an id that does not fit: name == make_safe_key(id)[:keep] + make_suffix(id | safe id), keep >= 1,
+                      keep = 56 (v2) / 55 - len(prefix) (v1), so that the limit is met exactly
+      callees         make_safe_key is applied to the id itself, make_suffix to the id or the safe id, once each
+     and, as a lemma over these two shapes (branch 2; ids over [A-Za-z0-9_./<>-]):
+      name_charset    the name consists of [A-Za-z0-9_.-] only
+      name_valid      the name starts and ends with an alphanumeric (Kubernetes qualified name)
+                      [known finding F-C16-1: ids that start with a non-alphanumeric, or short ids that end with one]
+    """
+    return _e4(vc, [0, 2])
+
+
+@harness('E4v1', targets=['kopf._cogs.configs.conventions.StorageKeyFormingConvention.make_v1_key'],
+         props=['C16'],
+         clauses=['prefixed', 'name_length', 'short_verbatim', 'long_hashed', 'callees'],
+         canaries=['canary.never_hashed', 'canary.always_hashed'],
+         trusted=['make_suffix / make_safe_key: lengths only (7 chars / same length), see E4 and E4b'],
+         timeout_ms=20000)
+def E4v1(vc):
+    """The legacy v1 key (still written by default, v1=True): the same structural clauses as E4 for make_v1_key --
+    prefixed; name_length: the WHOLE key is <= 63 chars (the documented v1 rule) and the name is not empty;
+    short_verbatim; long_hashed with keep = 55 - len(prefix) >= 1; callees.
+    Known finding F-C16-3: prefixes of 55..189 chars.  The validity of the two shapes is E4's lemma."""
+    return _e4(vc, [1])
+
+
+# =========================================================================== E4b (bounded part of E4)
+SMALL_ALPHABET = 'aZ0_./<>-'
+E4B_PREFIXES = ('kopf.zalando.org', 'my-op.example.com', 'kopf.dev',
+                'p' * 50 + '.com',                               # 54 chars: the longest prefix the v1 scheme can serve
+                ('a' * 20 + '.') * 4 + 'example.com',            # 95 chars: no warning, class of F-C16-3
+                ('b' * 30 + '.') * 6 + 'io')                     # 188 chars: the longest prefix without a warning
+
+PURE_FUNCTIONS = ('make_keys', 'make_safe_key', 'make_v1_key', 'make_v2_key', 'make_suffix')
+PURE_ALLOWED_GLOBALS = {'hashlib', 'base64', 'len', 'max', 'min', 'list', 'set', 'frozenset', 'tuple', 'sorted', 'str', 'any', 'all',
+                        'dict', 'range', 'enumerate', 'zip', 'isinstance', 'bodies', 'Iterable', 'int', 'bool', 'None', 'True', 'False'}
+PURE_ALLOWED_ATTRS = {'hashlib': {'blake2b', 'sha256', 'sha1', 'md5', 'blake2s'}, 'base64': {'b64encode', 'b32encode', 'urlsafe_b64encode'},
+                      'bodies': {'Body'}}
+
+
+def impurities(cls_node):
+    """AST purity scan of the key-forming methods: every free name must be a parameter/local, an allowed builtin or
+    one of the two hashing modules (with allowed functions); `self` may only be used for self.prefix, self.v1 and
+    calls of the other scanned methods / mark_key.  Returns the list of offending references."""
+    bad = []
+    for fn in [n for n in cls_node.body if isinstance(n, ast.FunctionDef) and n.name in PURE_FUNCTIONS]:
+        local = {a.arg for a in fn.args.args + fn.args.kwonlyargs}
+        body = ast.Module(body=fn.body, type_ignores=[])         # decorators and annotations are not executed per call
+        for n in ast.walk(body):
+            if isinstance(n, ast.Name) and isinstance(n.ctx, ast.Store):
+                local.add(n.id)
+            if isinstance(n, ast.comprehension):
+                for t in ast.walk(n.target):
+                    if isinstance(t, ast.Name):
+                        local.add(t.id)
+        for n in ast.walk(body):
+            if isinstance(n, (ast.Global, ast.Nonlocal, ast.Import, ast.ImportFrom, ast.Await, ast.Yield)):
+                bad.append(f'{fn.name}: {type(n).__name__}')
+            if isinstance(n, ast.Name) and isinstance(n.ctx, ast.Load) and n.id not in local and n.id not in PURE_ALLOWED_GLOBALS:
+                bad.append(f'{fn.name}: free name {n.id!r}')
+            if isinstance(n, ast.Attribute) and isinstance(n.value, ast.Name):
+                base = n.value.id
+                if base in PURE_ALLOWED_ATTRS and n.attr not in PURE_ALLOWED_ATTRS[base]:
+                    bad.append(f'{fn.name}: {base}.{n.attr}')
+                if base == 'self' and n.attr not in ('prefix', 'v1', 'mark_key') + PURE_FUNCTIONS:
+                    bad.append(f'{fn.name}: self.{n.attr}')
+    return bad
+
+
+def _storage(prefix, v1):
+    from kopf._cogs.configs import progress
+    import warnings
+    with warnings.catch_warnings():
+        warnings.simplefilter('ignore')
+        return progress.AnnotationsProgressStorage(prefix=prefix, v1=v1)
+
+
+def _random_id(rng, max_len=300):
+    n = rng.choice([1, 2, 5, 20, 55, 56, 57, 62, 63, 64, 65, 70, 100, 200, 253, 300, rng.randrange(1, max_len + 1)])
+    kind = rng.random()
+    chars = ID_CHARS if kind < 0.6 else ALNUM + '_./' if kind < 0.9 else '_./<>-'
+    return ''.join(rng.choice(chars) for _ in range(n))
+
+
+@bounded('E4b', targets=['kopf._cogs.configs.conventions.StorageKeyFormingConvention.make_keys',
+                         'kopf._cogs.configs.conventions.StorageKeyFormingConvention.make_suffix',
+                         'kopf._cogs.configs.conventions.StorageKeyFormingConvention.make_safe_key',
+                         'kopf._cogs.configs.conventions.StorageKeyFormingConvention.make_v1_key',
+                         'kopf._cogs.configs.conventions.StorageKeyFormingConvention.make_v2_key'],
+         props=['C16'],
+         clauses=['suffix_shape', 'safe_key', 'charset', 'name_length', 'valid_name', 'make_keys', 'deterministic', 'pure_ast',
+                  'same_across_restarts', 'distinct_long_shared_prefix', 'distinct_short'],
+         universe='ids: all strings of length 1..3 over {a,Z,0,_,.,/,<,>,-} (819) + seeded random ids of length 1..300 over '
+                  '[A-Za-z0-9_./<>-] (8000 quick / 60000 thorough, lengths clustered around 56/63/64); 6 prefixes (3 usual, 54, 95, 188 chars) '
+                  'x v1 in {T,F}; 40 groups of 200 long ids sharing their first 56..250 characters')
+def E4b(b):
+    """
+    The part of E4 that needs the real blake2b/base64 and the real `str.replace`, end to end on make_keys:
+      suffix_shape   make_suffix(x) is "-" + 5 chars of [A-Za-z0-9.-] + 1 alphanumeric (the contract E4 relies on)
+      safe_key       make_safe_key(id): '/'->'.', '<','>'->'_', everything else unchanged (the contract E4 relies on)
+      charset        every generated name is over [A-Za-z0-9_.-];  name_length: v2 name part <= 63 chars
+      valid_name     every key of make_keys is a valid Kubernetes qualified name (grammar oracle in this file)
+                     [known: F-C16-1 ids starting/ending with a non-alphanumeric; F-C16-3 v1 with prefixes of 55+ chars]
+      make_keys      no duplicates; the v2 key first; the v1 key present iff v1 and different from the v2 key
+      deterministic  two calls (two storage instances) agree;  pure_ast: the key-forming methods read nothing but their
+                     arguments, self.prefix/self.v1 and hashlib/base64 (AST scan: no time, randomness, environment, hash());
+                     same_across_restarts: a fresh interpreter with another PYTHONHASHSEED produces the same keys
+      distinct_long_shared_prefix  long ids that share their first 56+ characters get distinct names (2^-32 collision odds per pair)
+      distinct_short ids that fit (<= 63) get distinct names  [known: F-C16-2 ids equal after '/'->'.', '<','>'->'_']
+    Bounded (labelled B): z3 returns `unknown` on str.replace_all, and blake2b/base64 are third-party C code.
+    """
+    import os
+    import subprocess
+    import sys
+    from pyvc import loader
+    F1, F2, F3 = 'F-C16-1', 'F-C16-2', 'F-C16-3'
+    small = [''.join(t) for n in (1, 2, 3) for t in itertools.product(SMALL_ALPHABET, repeat=n)]
+    n_random = 60000 if b.thorough else 8000
+    rnd = [_random_id(b.rng) for _ in range(n_random)]
+    b.sampled(f'{n_random} seeded random ids of length <= 300 (seed {b.seed})')
+    ids = small + rnd
+    # ---- purity scan of the real source
+    mod, path, tree = loader.module_source('kopf._cogs.configs.conventions')
+    cls = next(n for n in tree.body if isinstance(n, ast.ClassDef) and n.name == 'StorageKeyFormingConvention')
+    bad = impurities(cls)
+    b.case(key='ast')
+    b.check('pure_ast', not bad and all(any(isinstance(n, ast.FunctionDef) and n.name == f for n in cls.body) for f in PURE_FUNCTIONS),
+            lambda: dict(impure_references=bad))
+    # ---- per id
+    st0 = _storage('kopf.zalando.org', True)
+    for hid in ids:
+        b.case(key=('safe', hid))
+        safe = st0.make_safe_key(hid)
+        ref = hid.translate({ord('/'): '.', ord('<'): '_', ord('>'): '_'})
+        b.check('safe_key', safe == ref and len(safe) == len(hid) and all(c in NAME_CHARS for c in safe), lambda: dict(id=hid, safe=safe))
+        sfx = st0.make_suffix(hid)
+        b.check('suffix_shape', bool(re.fullmatch(r'-[A-Za-z0-9.-]{5}[A-Za-z0-9]', sfx)), lambda: dict(id=hid, suffix=sfx))
+    for prefix in E4B_PREFIXES:
+        for v1 in (True, False):
+            st, st_again = _storage(prefix, v1), _storage(prefix, v1)
+            by_name = {}
+            for n, hid in enumerate(ids):
+                if n >= len(small) and len(prefix) > 20 and n % 4:
+                    continue        # the long prefixes get every 4th random id
+                keys = list(st.make_keys(hid))
+                b.case(key=(prefix, v1, hid))
+                w = lambda: dict(prefix=prefix, v1=v1, id=hid, keys=keys)
+                v2, v1k = st.make_v2_key(hid), st.make_v1_key(hid)
+                b.check('make_keys', len(set(keys)) == len(keys) and keys[0] == v2 and set(keys) == ({v2, v1k} if v1 else {v2}), w)
+                b.check('deterministic', keys == list(st.make_keys(hid)) == list(st_again.make_keys(hid)), w)
+                names = [k[len(prefix) + 1:] if k.startswith(prefix + '/') else None for k in keys]
+                b.check('charset', all(nm is not None and all(c in NAME_CHARS for c in nm) for nm in names), w)
+                b.check('name_length', names[0] is not None and 1 <= len(names[0]) <= 63, w)
+                for k in keys:
+                    ok = is_qualified_name(k)
+                    excuse = None
+                    if not ok:
+                        fits = len(hid) <= (63 if k == v2 else 63 - len(prefix) - 1)
+                        nm = k[len(prefix) + 1:]
+                        only_the_ends = k.startswith(prefix + '/') and 1 <= len(nm) <= 63 and all(c in NAME_CHARS for c in nm)
+                        if k != v2 and len(prefix) >= 55:
+                            excuse = F3
+                        elif only_the_ends and (hid[0] not in ALNUM or (fits and hid[-1] not in ALNUM)):
+                            excuse = F1
+                    b.check('valid_name', ok, lambda: dict(prefix=prefix, v1=v1, id=hid, key=k), excuse=excuse)
+                if len(hid) <= 63:
+                    by_name.setdefault(v2, []).append(hid)
+            for key, group in by_name.items():
+                group = sorted(set(group))
+                if len(group) > 1:
+                    same_safe = len({g.translate({ord('/'): '.', ord('<'): '_', ord('>'): '_'}) for g in group}) == 1
+                    b.check('distinct_short', False, lambda: dict(prefix=prefix, key=key, ids=group[:6]), excuse=F2 if same_safe else None)
+                else:
+                    b.check('distinct_short', True)
+    # ---- long ids sharing a prefix
+    for g in range(40):
+        shared = ''.join(b.rng.choice(ALNUM + '_./') for _ in range(b.rng.choice([56, 57, 63, 64, 100, 250])))
+        members = sorted({shared + ''.join(b.rng.choice(ALNUM + '._/') for _ in range(b.rng.randrange(1, 12))) for _ in range(200)})
+        members = [m for m in members if len(m) > 63]
+        for prefix, v1 in (('kopf.zalando.org', True), ('my-op.example.com', False)):
+            st = _storage(prefix, v1)
+            seen = {}
+            for m in members:
+                for k in st.make_keys(m):
+                    seen.setdefault(k, set()).add(m)
+            b.case(key=('long', g, prefix))
+            clash = {k: sorted(v) for k, v in seen.items() if len(v) > 1}
+            safe_equal = all(len({m.translate({ord('/'): '.', ord('<'): '_', ord('>'): '_'}) for m in v}) == 1 for v in clash.values())
+            b.check('distinct_long_shared_prefix', not clash and len(members) > 1, lambda: dict(prefix=prefix, clash=clash),
+                    excuse=F2 if clash and safe_equal else None)
+    # ---- identical across restarts: another interpreter, another hash seed
+    sample = small[::40] + rnd[:150]
+    code = ('import sys, json, warnings; warnings.simplefilter("ignore"); sys.path.insert(0, sys.argv[1]);'
+            'from kopf._cogs.configs import progress;'
+            'ids = json.loads(sys.stdin.read());'
+            'print(json.dumps([[list(progress.AnnotationsProgressStorage(prefix=p, v1=True).make_keys(i)) for i in ids] '
+            'for p in ("kopf.zalando.org", "my-op.example.com")]))')
+    env = dict(os.environ, PYTHONHASHSEED='4242')
+    out = subprocess.run([sys.executable, '-c', code, loader.repo_root()], input=json.dumps(sample), capture_output=True, text=True, env=env, timeout=120)
+    b.case(key='restart')
+    try:
+        theirs = json.loads(out.stdout.strip().splitlines()[-1])
+    except Exception:
+        theirs = None
+    mine = [[list(_storage(p, True).make_keys(i)) for i in sample] for p in ('kopf.zalando.org', 'my-op.example.com')]
+    b.check('same_across_restarts', theirs == mine, lambda: dict(stderr=out.stderr[-500:], differing=[
+        (i, a, c) for i, a, c in zip(sample, mine[0], (theirs or [[]])[0]) if a != c][:3]))
